@@ -13,6 +13,12 @@
 //!   process    = if has_created { `collect_work` }; `WorkerTree::process`   (end of a debounced batch)
 //! Every history starts with `darklua_core::process` (as `FileWatcher::start` does) and ends with
 //! a `process`.
+//! A leading `init k` marker starts the session from a variant of the project in which a
+//! dependency is missing (an item then fails on the first run, without a previous output).
+//! Besides the histories, the run covers: every pair of configurations that differ in exactly
+//! one respect (`CONFIG_PAIRS`), both directions; a second project whose bundle entry sits at
+//! the root of the working directory (fresh-run oracle only); runs with a user rule that puts
+//! items on hold (`Rule::require_content`).
 //!
 //! (a) correspondence: after every `process` the output tree, success/error counts and the
 //!     set of watched external dependencies equal the Lean model's (`c10.run`), where the model's
@@ -39,7 +45,7 @@ const OUTPUT: &str = "out";
 /// (path, content variants, initially present)
 const FILES: &[(&str, &[&str], bool)] = &[
     ("src/a.lua", &["local x = 1 + 1\nreturn x -- a0\n", "return 'a1'\n", "local = 1\n"], true),
-    ("src/b.lua", &["return 'b0'\n", "return require(\"./bundle/data.json\").v\n"], true),
+    ("src/b.lua", &["if DEBUG then\n    return 'dbg'\nend\nreturn 'b0'\n", "return require(\"./bundle/data.json\").v\n"], true),
     ("src/sub/c.lua", &["local function f() return 2 * 3 end\nreturn f()\n", "return 'c1'\n"], true),
     (
         "src/bundle/entry.lua",
@@ -74,13 +80,42 @@ const FOREIGN: &[(&str, &str)] = &[("out/foreign.txt", "keep me"), ("out/sub/rea
 
 const DIRS: &[&str] = &["src/bundle", "src/sub"];
 
-/// configurations (json5). 0/1 differ in the generator, 0/2 only in a rule filter (invisible
-/// to the configuration hash: F13), 0/3 in the rule list.
+/// configurations (json5); every way a configuration can change is represented by a pair that
+/// differs in exactly that respect, and every pair yields different outputs for at least one
+/// source (checked at start-up), so a fingerprint that misses the difference leaves stale output:
+///   0 / 1   generator (retain_lines / dense)            1 / 9   generator parameter (column_span)
+///   0 / 2   skip_files on a property-less rule (F13)    0 / 6   apply_to_files on a property-less rule
+///   0 / 3   a rule removed / added                      4 / 5   a rule property value
+///   7 / 8   the order of two rules                      0 / 10  a bundle setting
+///   4 / 11  a filter on a rule that has properties
+/// (Root-level `skip_files` / `apply_to_files` are left to C19/C20: a source they exclude finishes
+/// successfully WITHOUT writing an output, which the abstraction `T` (success = an output) cannot express.)
 const CONFIGS: &[&str] = &[
     "{ rules: ['remove_comments', 'compute_expression'], bundle: { require_mode: 'path' } }",
     "{ rules: ['remove_comments', 'compute_expression'], bundle: { require_mode: 'path' }, generator: 'dense' }",
     "{ rules: ['remove_comments', { rule: 'compute_expression', skip_files: ['**/a.lua'] }], bundle: { require_mode: 'path' } }",
     "{ rules: ['remove_comments'], bundle: { require_mode: 'path' } }",
+    "{ rules: ['remove_comments', 'compute_expression', { rule: 'inject_global_value', identifier: 'DEBUG', value: true }], bundle: { require_mode: 'path' } }",
+    "{ rules: ['remove_comments', 'compute_expression', { rule: 'inject_global_value', identifier: 'DEBUG', value: false }], bundle: { require_mode: 'path' } }",
+    "{ rules: ['remove_comments', { rule: 'compute_expression', apply_to_files: ['**/sub/**'] }], bundle: { require_mode: 'path' } }",
+    "{ rules: [{ rule: 'inject_global_value', identifier: 'DEBUG', value: true }, 'remove_unused_if_branch'], bundle: { require_mode: 'path' } }",
+    "{ rules: ['remove_unused_if_branch', { rule: 'inject_global_value', identifier: 'DEBUG', value: true }], bundle: { require_mode: 'path' } }",
+    "{ rules: ['remove_comments', 'compute_expression'], bundle: { require_mode: 'path' }, generator: { name: 'dense', column_span: 20 } }",
+    "{ rules: ['remove_comments', 'compute_expression'], bundle: { require_mode: 'path', modules_identifier: '__M' } }",
+    "{ rules: ['remove_comments', 'compute_expression', { rule: 'inject_global_value', identifier: 'DEBUG', value: true, skip_files: ['**/b.lua'] }], bundle: { require_mode: 'path' } }",
+];
+
+/// the pairs that differ in exactly one respect (see above); both directions are run
+const CONFIG_PAIRS: &[(usize, usize, &str)] = &[
+    (0, 1, "generator"),
+    (1, 9, "generator parameter"),
+    (0, 2, "skip_files of a property-less rule"),
+    (0, 6, "apply_to_files of a property-less rule"),
+    (0, 3, "rule list"),
+    (4, 5, "rule property value"),
+    (7, 8, "rule order"),
+    (0, 10, "bundle setting"),
+    (4, 11, "filter of a rule with properties"),
 ];
 
 fn config(k: usize) -> Configuration {
@@ -109,6 +144,8 @@ fn out_path(path: &str) -> String {
 
 #[derive(Clone, Copy, Debug, PartialEq, Eq, Hash, PartialOrd, Ord)]
 pub enum Op {
+    /// only as the first element: the watch session starts from initial variant k (files absent)
+    Init(usize),
     Edit(usize, usize),
     Add(usize, usize),
     Rm(usize),
@@ -121,6 +158,7 @@ pub enum Op {
 impl Op {
     fn text(&self) -> String {
         match *self {
+            Op::Init(k) => format!("init {}", k),
             Op::Edit(f, v) => format!("edit {} {}", FILES[f].0, v),
             Op::Add(f, v) => format!("add {} {}", FILES[f].0, v),
             Op::Rm(f) => format!("rm {}", FILES[f].0),
@@ -134,6 +172,7 @@ impl Op {
         let parts: Vec<&str> = s.split_whitespace().collect();
         let file = |p: &str| FILES.iter().position(|f| f.0 == p);
         match parts.as_slice() {
+            ["init", k] => Some(Op::Init(k.parse().ok().filter(|k| *k < INIT_VARIANTS.len())?)),
             ["edit", p, v] => Some(Op::Edit(file(p)?, v.parse().ok()?)),
             ["add", p, v] => Some(Op::Add(file(p)?, v.parse().ok()?)),
             ["rm", p] => Some(Op::Rm(file(p)?)),
@@ -153,6 +192,7 @@ impl Op {
                     "editDep"
                 }
             }
+            Op::Init(_) => "init",
             Op::Add(..) => "add",
             Op::Rm(_) => "removeFile",
             Op::RmDir(_) => "removeDir",
@@ -174,6 +214,21 @@ fn history_from_json(v: &Value) -> Option<Vec<Op>> {
 /// the input side of the file system: variant index per file (None = absent)
 type FsState = Vec<Option<usize>>;
 
+/// initial variants: the files that are absent when the session starts (besides the late files).
+/// With a dependency missing from the start an item fails on the FIRST run, without a previous
+/// output, which keeps "fail, then repair" histories short and inside H10.
+const INIT_VARIANTS: &[&[usize]] = &[&[], &[F_M2], &[F_DATA], &[F_M1]];
+
+fn initial_state_of(h: &[Op]) -> FsState {
+    let mut state = initial_state();
+    if let Some(Op::Init(k)) = h.first() {
+        for &f in INIT_VARIANTS[*k] {
+            state[f] = None;
+        }
+    }
+    state
+}
+
 fn initial_state() -> FsState {
     FILES.iter().map(|f| if f.2 { Some(0) } else { None }).collect()
 }
@@ -186,6 +241,7 @@ fn op_valid(state: &FsState, op: Op) -> bool {
         Op::Rm(f) => state[f].is_some(),
         Op::RmDir(d) => (0..FILES.len()).any(|f| state[f].is_some() && FILES[f].0.starts_with(&format!("{}/", DIRS[d]))),
         Op::Cfg(_) | Op::Collect | Op::Process => true,
+        Op::Init(_) => false,
     }
 }
 
@@ -206,8 +262,13 @@ fn apply_to_state(state: &mut FsState, op: Op) {
 
 /// drop the operations that are not valid where they stand; always end with `process`
 fn canonical(h: &[Op]) -> Vec<Op> {
-    let mut state = initial_state();
+    let mut state = initial_state_of(h);
     let mut out = Vec::new();
+    if let Some(Op::Init(k)) = h.first() {
+        if *k != 0 {
+            out.push(Op::Init(*k));
+        }
+    }
     for &op in h {
         if op_valid(&state, op) {
             apply_to_state(&mut state, op);
@@ -280,9 +341,8 @@ struct Real {
 }
 
 impl Real {
-    fn start() -> Real {
+    fn start(state: FsState) -> Real {
         let res = Resources::from_memory();
-        let state = initial_state();
         populate(&res, &state, true);
         // FileWatcher::start -> run_worker_tree -> darklua_core::process
         let tree = darklua_core::process(&res, options(0)).ok();
@@ -306,6 +366,7 @@ impl Real {
     fn apply(&mut self, op: Op) -> Option<Obs> {
         let tree = self.tree.as_mut().expect("initial run succeeded");
         match op {
+            Op::Init(_) => {}
             Op::Edit(f, v) => {
                 self.res.write(FILES[f].0, FILES[f].1[v]).unwrap();
                 tree.source_changed(FILES[f].0);
@@ -347,9 +408,10 @@ impl Real {
 
 /// Run a history on the real worker: one `Step` per `process`, stopping at the first panic.
 fn run_real(h: &[Op]) -> (Vec<Step>, FsState, usize, BTreeMap<String, String>) {
-    let mut real = match catch_unwind(Real::start) {
+    let init = initial_state_of(h);
+    let mut real = match catch_unwind(|| Real::start(init.clone())) {
         Ok(r) => r,
-        Err(e) => return (vec![Step::Panic(panic_text(e))], initial_state(), 0, BTreeMap::new()),
+        Err(e) => return (vec![Step::Panic(panic_text(e))], init, 0, BTreeMap::new()),
     };
     let mut steps = Vec::new();
     for &op in h {
@@ -591,9 +653,12 @@ fn model_request(h: &[Op]) -> (String, Codec) {
     s.push_str(&format!(" (univ {})", univ.join(" ")));
     // initial file system: inputs + foreign files
     let mut init = Vec::new();
-    for f in FILES.iter().filter(|f| f.2) {
-        let p = cx.path(f.0);
-        init.push(format!("(f {} {})", p, cx.contents.id(f.1[0])));
+    let init_state = initial_state_of(h);
+    for (i, f) in FILES.iter().enumerate() {
+        if let Some(v) = init_state[i] {
+            let p = cx.path(f.0);
+            init.push(format!("(f {} {})", p, cx.contents.id(f.1[v])));
+        }
     }
     for (p, c) in FOREIGN {
         let p = cx.path(p);
@@ -618,7 +683,7 @@ fn model_request(h: &[Op]) -> (String, Codec) {
             cfgs.insert(*k);
         }
     }
-    let mut state = initial_state();
+    let mut state = initial_state_of(h);
     let note = |state: &FsState, table: &mut BTreeMap<(usize, FsState, usize), Arc<TRes>>| {
         for &cfg in cfgs.iter() {
             for f in 0..FILES.len() {
@@ -653,7 +718,9 @@ fn model_request(h: &[Op]) -> (String, Codec) {
     s.push_str(&format!(" (T {})", entries.join(" ")));
     let ops: Vec<String> = h
         .iter()
+        .filter(|op| !matches!(op, Op::Init(_)))
         .map(|op| match *op {
+            Op::Init(_) => String::new(),
             Op::Edit(f, v) => format!("(edit {} {})", cx.path(FILES[f].0), cx.contents.id(FILES[f].1[v])),
             Op::Add(f, v) => format!("(add {} {})", cx.path(FILES[f].0), cx.contents.id(FILES[f].1[v])),
             Op::Rm(f) => format!("(rm {})", cx.path(FILES[f].0)),
@@ -760,7 +827,7 @@ fn judge_oracle(h: &[Op]) -> Option<String> {
 }
 
 fn judge_oracle_on(h: &[Op], steps: &[Step], inputs: &BTreeMap<String, String>) -> Option<String> {
-    let mut state = initial_state();
+    let mut state = initial_state_of(h);
     let mut cfg = 0;
     let mut it = steps.iter();
     let mut n = 0;
@@ -886,6 +953,11 @@ fn shrink(h: &[Op], fails: &mut dyn FnMut(&[Op]) -> bool) -> Vec<Op> {
 // generation
 
 fn alphabet() -> Vec<Op> {
+    alphabet_with(CONFIGS.len())
+}
+
+/// the operation alphabet with the first `configs` configurations as `cfg` steps
+fn alphabet_with(configs: usize) -> Vec<Op> {
     let mut a = Vec::new();
     a.push(Op::Process);
     a.push(Op::Edit(F_A, 1));
@@ -911,10 +983,9 @@ fn alphabet() -> Vec<Op> {
     a.push(Op::Rm(F_M2));
     a.push(Op::RmDir(0));
     a.push(Op::RmDir(1));
-    a.push(Op::Cfg(1));
-    a.push(Op::Cfg(2));
-    a.push(Op::Cfg(3));
-    a.push(Op::Cfg(0));
+    for k in 0..configs {
+        a.push(Op::Cfg((k + 1) % configs));
+    }
     a.push(Op::Collect);
     a
 }
@@ -956,6 +1027,13 @@ fn random_history(rng: &mut Rng, len: usize) -> Vec<Op> {
 
 /// all canonical histories of exactly `len` operations drawn from `alphabet` (+ the closing process)
 fn enumerate(len: usize, alphabet: &[Op], out: &mut Vec<Vec<Op>>) {
+    enumerate_from(0, len, alphabet, out)
+}
+
+/// the same from initial variant `init` (histories carry the leading `init` marker)
+fn enumerate_from(init: usize, len: usize, alphabet: &[Op], out: &mut Vec<Vec<Op>>) {
+    let prefix: Vec<Op> = if init == 0 { Vec::new() } else { vec![Op::Init(init)] };
+    let offset = prefix.len();
     fn go(len: usize, alphabet: &[Op], state: &FsState, cur: &mut Vec<Op>, out: &mut Vec<Vec<Op>>) {
         if cur.len() == len {
             if cur.last() == Some(&Op::Process) {
@@ -985,7 +1063,8 @@ fn enumerate(len: usize, alphabet: &[Op], out: &mut Vec<Vec<Op>>) {
             cur.pop();
         }
     }
-    go(len, alphabet, &initial_state(), &mut Vec::new(), out);
+    let mut cur = prefix.clone();
+    go(len + offset, alphabet, &initial_state_of(&prefix), &mut cur, out);
 }
 
 // ---------------------------------------------------------------------------------------
@@ -1073,6 +1152,215 @@ fn on_hold_run(only_for: &'static str, required: &'static str, secs: u64) -> Opt
 }
 
 // ---------------------------------------------------------------------------------------
+// a second project: the bundle entry sits at the ROOT of the working directory (single-file input
+// `main.lua` -> `out/main.lua`), its dependencies next to it and one level down. Judged by the
+// fresh-run oracle only (the Lean model covers the directory-input mode with disjoint folders).
+
+const ROOT_FILES: &[(&str, &[&str])] = &[
+    ("main.lua", &["local a = require(\"./a\")\nlocal b = require(\"./lib/b\")\nreturn a + b\n", "local a = require(\"./a\")\nreturn a\n"]),
+    ("a.lua", &["return 1\n", "return 2\n"]),
+    ("lib/b.lua", &["return 10\n", "return 20\n"]),
+];
+
+#[derive(Clone, Copy, Debug, PartialEq, Eq)]
+enum RootOp {
+    Edit(usize, usize),
+    Rm(usize),
+    Add(usize, usize),
+    Cfg(usize),
+    Process,
+}
+
+impl RootOp {
+    fn text(&self) -> String {
+        match *self {
+            RootOp::Edit(f, v) => format!("edit {} {}", ROOT_FILES[f].0, v),
+            RootOp::Rm(f) => format!("rm {}", ROOT_FILES[f].0),
+            RootOp::Add(f, v) => format!("add {} {}", ROOT_FILES[f].0, v),
+            RootOp::Cfg(k) => format!("cfg {}", k),
+            RootOp::Process => "process".to_owned(),
+        }
+    }
+}
+
+impl RootOp {
+    fn parse(s: &str) -> Option<RootOp> {
+        let parts: Vec<&str> = s.split_whitespace().collect();
+        let file = |p: &str| ROOT_FILES.iter().position(|f| f.0 == p);
+        match parts.as_slice() {
+            ["edit", p, v] => Some(RootOp::Edit(file(p)?, v.parse().ok()?)),
+            ["add", p, v] => Some(RootOp::Add(file(p)?, v.parse().ok()?)),
+            ["rm", p] => Some(RootOp::Rm(file(p)?)),
+            ["cfg", k] => Some(RootOp::Cfg(k.parse().ok().filter(|k| *k < CONFIGS.len())?)),
+            ["process"] => Some(RootOp::Process),
+            _ => None,
+        }
+    }
+}
+
+fn root_alphabet() -> Vec<RootOp> {
+    vec![
+        RootOp::Process,
+        RootOp::Edit(0, 1),
+        RootOp::Edit(0, 0),
+        RootOp::Edit(1, 1),
+        RootOp::Edit(2, 1),
+        RootOp::Rm(1),
+        RootOp::Rm(2),
+        RootOp::Add(1, 1),
+        RootOp::Add(2, 1),
+        RootOp::Cfg(1),
+        RootOp::Cfg(3),
+    ]
+}
+
+/// all histories up to `len` operations; a removed file is only created again within the same
+/// batch (re-creating it after a pass that failed on its absence is the known finding F12)
+fn root_histories(len: usize) -> Vec<Vec<RootOp>> {
+    fn go(len: usize, alpha: &[RootOp], present: [bool; 3], failed_pass: [bool; 3], cur: &mut Vec<RootOp>, out: &mut Vec<Vec<RootOp>>) {
+        if !cur.is_empty() {
+            out.push(cur.clone());
+        }
+        if cur.len() == len {
+            return;
+        }
+        for &op in alpha {
+            let mut present2 = present;
+            let mut failed2 = failed_pass;
+            match op {
+                RootOp::Edit(f, _) => {
+                    if !present[f] {
+                        continue;
+                    }
+                }
+                RootOp::Rm(f) => {
+                    if !present[f] {
+                        continue;
+                    }
+                    present2[f] = false;
+                }
+                RootOp::Add(f, _) => {
+                    if present[f] || failed_pass[f] {
+                        continue;
+                    }
+                    present2[f] = true;
+                }
+                RootOp::Process => {
+                    if cur.last() == Some(&RootOp::Process) {
+                        continue;
+                    }
+                    for f in 0..3 {
+                        if !present[f] {
+                            failed2[f] = true;
+                        }
+                    }
+                }
+                RootOp::Cfg(_) => {
+                    if let Some(RootOp::Cfg(_)) = cur.last() {
+                        continue;
+                    }
+                }
+            }
+            cur.push(op);
+            go(len, alpha, present2, failed2, cur, out);
+            cur.pop();
+        }
+    }
+    let mut out = Vec::new();
+    go(len, &root_alphabet(), [true; 3], [false; 3], &mut Vec::new(), &mut out);
+    out
+}
+
+fn root_history_json(h: &[RootOp]) -> Value {
+    Value::Array(h.iter().map(|o| Value::String(o.text())).collect())
+}
+
+fn root_options(k: usize) -> Options {
+    Options::new("main.lua").with_output("out/main.lua").with_configuration(config(k))
+}
+
+fn root_fresh(state: &[Option<usize>], cfg: usize) -> Tree {
+    let res = Resources::from_memory();
+    for (f, v) in state.iter().enumerate() {
+        if let Some(v) = v {
+            res.write(ROOT_FILES[f].0, ROOT_FILES[f].1[*v]).unwrap();
+        }
+    }
+    let _ = darklua_core::process(&res, root_options(cfg));
+    out_tree(&res)
+}
+
+/// run a history on the root-level project; Some(description) at the first divergence from a fresh run
+fn root_judge(h: &[RootOp]) -> Option<String> {
+    let r = catch_unwind(|| {
+        let res = Resources::from_memory();
+        let mut state: Vec<Option<usize>> = ROOT_FILES.iter().map(|_| Some(0)).collect();
+        for (f, v) in state.iter().enumerate() {
+            res.write(ROOT_FILES[f].0, ROOT_FILES[f].1[v.unwrap()]).unwrap();
+        }
+        let mut cfg = 0usize;
+        let mut tree = match darklua_core::process(&res, root_options(cfg)) {
+            Ok(t) => t,
+            Err(e) => return Some(format!("the first run fails: {}", e)),
+        };
+        let mut has_created = false;
+        let mut n = 0;
+        for op in h.iter().chain(std::iter::once(&RootOp::Process)) {
+            match *op {
+                RootOp::Edit(f, v) => {
+                    if state[f].is_none() {
+                        continue;
+                    }
+                    res.write(ROOT_FILES[f].0, ROOT_FILES[f].1[v]).unwrap();
+                    state[f] = Some(v);
+                    tree.source_changed(ROOT_FILES[f].0);
+                }
+                RootOp::Rm(f) => {
+                    if state[f].is_none() {
+                        continue;
+                    }
+                    res.remove(ROOT_FILES[f].0).unwrap();
+                    state[f] = None;
+                    tree.remove_source(ROOT_FILES[f].0);
+                }
+                RootOp::Add(f, v) => {
+                    if state[f].is_some() {
+                        continue;
+                    }
+                    res.write(ROOT_FILES[f].0, ROOT_FILES[f].1[v]).unwrap();
+                    state[f] = Some(v);
+                    has_created = true;
+                }
+                RootOp::Cfg(k) => cfg = k,
+                RootOp::Process => {
+                    if has_created {
+                        let _ = tree.collect_work(&res, &root_options(cfg));
+                        has_created = false;
+                    }
+                    let _ = tree.process(&res, root_options(cfg));
+                    n += 1;
+                    let real = out_tree(&res);
+                    let fresh = root_fresh(&state, cfg);
+                    if !fresh.contains_key("out/main.lua") {
+                        // the entry fails in a fresh run: whether its previous output stays is the
+                        // known finding F25, not judged here
+                        continue;
+                    }
+                    if real != fresh {
+                        return Some(format!("after process #{} the output differs from a fresh run: {}", n, first_diff(&real, &fresh)));
+                    }
+                }
+            }
+        }
+        None
+    });
+    match r {
+        Ok(v) => v,
+        Err(e) => Some(format!("panic: {}", panic_text(e))),
+    }
+}
+
+// ---------------------------------------------------------------------------------------
 // driver
 
 struct Finding {
@@ -1112,7 +1400,9 @@ fn repair(model: &mut Model, h: Vec<Op>) -> Vec<Op> {
     for _ in 0..40 {
         match run_model(model, &cur) {
             Ok(m) => match m.region_at {
-                Some(k) if k < cur.len() => {
+                Some(k0) if k0 + usize::from(matches!(cur.first(), Some(Op::Init(_)))) < cur.len() => {
+                    // the model counts operations without the leading `init` marker
+                    let k = k0 + usize::from(matches!(cur.first(), Some(Op::Init(_))));
                     let mut next = cur.clone();
                     next.remove(k);
                     cur = canonical(&next);
@@ -1182,7 +1472,7 @@ fn run_parallel(histories: Arc<Vec<(Vec<Op>, bool)>>, threads: usize, mut on: im
 }
 
 pub fn run(report: &mut Report, replay: Option<&str>) {
-    report.rule = "histories over a fixed project (4 plain sources incl. a nested directory and a late-added file, a bundle entry requiring a source module, a module outside the input folder and a JSON data file, two foreign files in the output folder, 4 configurations differing in generator / rule filter / rule list); operations edit/add/rm/rmdir/cfg/collect/process as file_watcher.rs issues them; a case is non-trivial when the history contains at least one edit/add/remove/configuration operation (distinct histories counted)".to_owned();
+    report.rule = "histories over a fixed project, optionally starting with a dependency missing, 12 configurations covering every kind of configuration change, plus a root-level-entry project (4 plain sources incl. a nested directory and a late-added file, a bundle entry requiring a source module, a module outside the input folder and a JSON data file, two foreign files in the output folder, 12 configurations); operations edit/add/rm/rmdir/cfg/collect/process as file_watcher.rs issues them; a case is non-trivial when the history contains at least one edit/add/remove/configuration operation (distinct histories counted)".to_owned();
 
     if let Some(path) = replay {
         replay_file(report, path);
@@ -1201,6 +1491,22 @@ fn replay_file(report: &mut Report, path: &str) {
     let h = history_from_json(&v["input"]["history"])
         .or_else(|| history_from_json(&v["witness"]["history"]))
         .or_else(|| history_from_json(&v["history"]));
+    if let Some(items) = v["input"]["root_history"].as_array() {
+        let h: Option<Vec<RootOp>> = items.iter().map(|x| x.as_str().and_then(RootOp::parse)).collect();
+        if let Some(h) = h {
+            report.case(Some(format!("{:?}", h)));
+            if let Some(what) = root_judge(&h) {
+                report.violation(Violation {
+                    kind: "oracle".into(),
+                    check: "root-level-entry".into(),
+                    what,
+                    input: json!({"project": "root", "root_history": root_history_json(&h)}),
+                    failing_input_found: true,
+                });
+            }
+            return;
+        }
+    }
     let Some(h) = h else {
         report.notes.push(format!("replay: no history in {}", path));
         return;
@@ -1235,6 +1541,20 @@ fn replay_file(report: &mut Report, path: &str) {
 
 /// development aid: oracle-only sweep that lists minimal failing histories by failure text
 fn explore(report: &mut Report) {
+    if std::env::var("C10_EXPLORE").as_deref() == Ok("root") {
+        let ops = [RootOp::Edit(1, 1), RootOp::Edit(2, 1), RootOp::Edit(0, 1), RootOp::Rm(1), RootOp::Add(1, 1), RootOp::Cfg(1), RootOp::Process];
+        for a in ops.iter() {
+            let h = vec![*a];
+            report.notes.push(format!("{:?} -> {:?}", h.iter().map(|o| o.text()).collect::<Vec<_>>(), root_judge(&h).map(|s| s.chars().take(200).collect::<String>())));
+            for b in ops.iter() {
+                let h = vec![*a, *b];
+                if let Some(w) = root_judge(&h) {
+                    report.notes.push(format!("{:?} -> {}", h.iter().map(|o| o.text()).collect::<Vec<_>>(), w.chars().take(200).collect::<String>()));
+                }
+            }
+        }
+        return;
+    }
     let alpha = alphabet();
     let mut all = Vec::new();
     for len in 1..=3 {
@@ -1311,25 +1631,60 @@ fn main_run(report: &mut Report) {
         }
     }
 
-    // ---- exhaustive part
+    // ---- every configuration pair that differs in one respect, both directions (directed corpus)
+    for &(i, j, what) in CONFIG_PAIRS {
+        let (ti, tj) = (fresh(i, &initial_state()), fresh(j, &initial_state()));
+        if *ti == *tj {
+            report.violation(Violation {
+                kind: "correspondence".into(),
+                check: "config-pair-distinguishable".into(),
+                what: format!("configurations {} and {} ({}) give the same outputs on the initial project: the pair cannot reveal a fingerprint that misses the difference", i, j, what),
+                input: json!({"configurations": [CONFIGS[i], CONFIGS[j]]}),
+                failing_input_found: false,
+            });
+        }
+        for (x, y) in [(i, j), (j, i)] {
+            histories.push((canonical(&[Op::Cfg(x), Op::Process, Op::Cfg(y)]), false));
+            histories.push((canonical(&[Op::Cfg(x), Op::Process, Op::Edit(F_C, 1), Op::Cfg(y)]), false));
+            histories.push((canonical(&[Op::Cfg(x), Op::Process, Op::Cfg(y), Op::Process, Op::Cfg(x)]), false));
+            report.count("config_pair_histories", 3);
+        }
+        report.hist("config_pair", what);
+    }
+
+    // ---- exhaustive part: every configuration is a `cfg` step up to length 3 (quick: 2); the
+    // length-4 layer uses the first four configurations
     let alpha = alphabet();
+    let alpha4 = alphabet_with(4);
     let mut exhaustive = Vec::new();
-    let max_len = if report.is_thorough() { 4 } else { 3 };
+    let max_len = if report.is_thorough() { 3 } else { 3 };
     for len in 1..=max_len {
         enumerate(len, &alpha, &mut exhaustive);
+    }
+    if report.is_thorough() {
+        enumerate(4, &alpha4, &mut exhaustive);
+    }
+    // sessions that start with a dependency missing (an item fails on the first run): length <= 2
+    // (thorough: <= 3) with the first four configurations
+    for init in 1..INIT_VARIANTS.len() {
+        for len in 1..=(if report.is_thorough() { 3 } else { 2 }) {
+            enumerate_from(init, len, &alpha4, &mut exhaustive);
+        }
     }
     let exhaustive_total = exhaustive.len();
     if !report.is_thorough() {
         // quick: all of length <= 2, a seeded slice of length 3
-        let mut short: Vec<Vec<Op>> = exhaustive.iter().filter(|h| h.len() <= 3).cloned().collect();
-        let mut long: Vec<Vec<Op>> = exhaustive.into_iter().filter(|h| h.len() > 3).collect();
+        let body = |h: &Vec<Op>| h.iter().filter(|o| !matches!(o, Op::Init(_))).count();
+        let mut short: Vec<Vec<Op>> = exhaustive.iter().filter(|h| body(h) <= 3).cloned().collect();
+        let mut long: Vec<Vec<Op>> = exhaustive.into_iter().filter(|h| body(h) > 3).collect();
         rng.shuffle(&mut long);
         long.truncate(3000);
         short.extend(long);
         exhaustive = short;
-        report.exhaustive.insert("histories of length <= 2 over the 29-op alphabet".into(), true);
+        report.exhaustive.insert(format!("histories of length <= 2 over the {}-op alphabet (all {} configurations as cfg steps)", alpha.len(), CONFIGS.len()), true);
     } else {
-        report.exhaustive.insert("histories of length <= 4 over the 29-op alphabet".into(), true);
+        report.exhaustive.insert(format!("histories of length <= 3 over the {}-op alphabet (all {} configurations as cfg steps)", alpha.len(), CONFIGS.len()), true);
+        report.exhaustive.insert(format!("histories of length 4 over the {}-op alphabet (configurations 0-3)", alpha4.len()), true);
         // plus a seeded slice of length 5
         let mut five = Vec::new();
         let n5 = 60_000;
@@ -1347,6 +1702,8 @@ fn main_run(report: &mut Report) {
         }
         exhaustive.extend(five);
     }
+    report.exhaustive.insert(format!("sessions starting with lib/m2.lua, data.json or m1.lua missing: histories of length <= {} over the {}-op alphabet", if report.is_thorough() { 3 } else { 2 }, alpha4.len()), true);
+    report.exhaustive.insert("configuration pairs differing in one respect (generator, generator parameter, rule filters, rule list, property value, rule order, bundle setting), both directions".into(), true);
     report.count("enumerated_total", exhaustive_total as u64);
     histories.extend(exhaustive.into_iter().map(|h| (h, false)));
 
@@ -1357,7 +1714,13 @@ fn main_run(report: &mut Report) {
         // two thirds are steered to stay inside H10 (otherwise long histories nearly always
         // run into one of the defect regions early and the rest of them is not judged)
         let guided = rng.below(3) != 0;
-        histories.push((random_history(&mut rng, len), guided));
+        let mut h = random_history(&mut rng, len);
+        if rng.below(3) == 0 {
+            let mut with_init = vec![Op::Init(1 + rng.below(INIT_VARIANTS.len() - 1))];
+            with_init.extend(h);
+            h = canonical(&with_init);
+        }
+        histories.push((h, guided));
     }
 
     // ---- run
@@ -1491,6 +1854,30 @@ fn main_run(report: &mut Report) {
             input: json!({"history": history_json(&small), "found_as": history_json(h)}),
             failing_input_found: failing,
         });
+    }
+    // (5) the root-level project (entry next to its dependencies; single-file input), oracle only
+    {
+        let hs = root_histories(3);
+        let mut failures: Vec<(Vec<RootOp>, String)> = Vec::new();
+        for h in hs.iter() {
+            report.case(Some(format!("root {:?}", h)));
+            report.hist("root_project_length", &format!("{}", h.len()));
+            if let Some(what) = root_judge(h) {
+                failures.push((h.clone(), what));
+            }
+        }
+        report.count("root_project_histories", hs.len() as u64);
+        report.exhaustive.insert("root-level project: histories of length <= 3 over its 11-op alphabet (fresh-run oracle only)".into(), true);
+        failures.sort_by_key(|(h, _)| h.len());
+        for (h, what) in failures.iter().take(2) {
+            report.violation(Violation {
+                kind: "oracle".into(),
+                check: "root-level-entry".into(),
+                what: what.chars().take(300).collect(),
+                input: json!({"project": "root", "root_history": root_history_json(h), "failing_histories": failures.len()}),
+                failing_input_found: true,
+            });
+        }
     }
     // (4) the on-hold path (last, because a hanging run keeps a core busy until exit)
     {
